@@ -177,7 +177,7 @@ func genTypedProbe(r *RNG, d *EnvData) string {
 		return fmt.Sprint(i)
 	}
 	in := r.Pick([]string{"in", "not in"})
-	switch r.Intn(12) {
+	switch r.Intn(14) {
 	case 0: // membership in a literal range, boundaries at the operand's value
 		a := near()
 		b := a + r.Range(-1, 3)
@@ -206,11 +206,35 @@ func genTypedProbe(r *RNG, d *EnvData) string {
 			`(O.V in [1, 0]) or (T in ["1", "0"])`,
 			`[len([1, 2]), len(["1", "2"]), len(1..2)]`,
 		})
+	case 11: // a conditional whose branches have different static types, under a rewrite
+		return fmt.Sprintf("(%s ? %s : %s) %s %s", r.Pick([]string{"P", "Q", "not P"}),
+			r.Pick([]string{"1", "A", "nil", "Any", "S", "O.V"}), r.Pick([]string{"Any", "nil", "1", "A", "On?.V", "F64"}),
+			in, r.Pick([]string{"[1, 2, 3]", "[0, 1]", "0..3", "1..1", "[\"a\", \"dyn\"]"}))
+	case 12: // constant ranges at and beyond the default budget
+		if r.Chance(1, 4) {
+			return r.Pick([]string{"len(1..1000000)", "A in 1..10000000", "[len(1..600000), len(1..600000)]", "len(1..999999)", "len(0..999998)"})
+		}
+		return fmt.Sprintf("len(%d..%d)", r.Range(-2, 2), r.Range(3, 40))
 	case 10: // a ConstExpr function returning a named integer type through interface{}
 		return fmt.Sprintf("CL(%d) %s", r.Range(0, 3), r.Pick([]string{"== 1", "== 0", "in 0..2", "in [0, 1]", "not in 1..3", "!= 2"}))
 	default: // ConstExpr float function with folded arguments under a comparison
 		return fmt.Sprintf("Ff(%d) %s %s", r.Range(0, 4), r.Pick([]string{"==", "<", ">="}), o.src)
 	}
+}
+
+var literalRangeRe = regexp.MustCompile(`(-?\d+)\)?\s*\.\.\s*\(?(-?\d+)`)
+
+// hasHugeLiteralRange: the source contains a literal range of at least 100000 elements.
+func hasHugeLiteralRange(src string) bool {
+	for _, m := range literalRangeRe.FindAllStringSubmatch(src, -1) {
+		var a, b int
+		fmt.Sscan(m[1], &a)
+		fmt.Sscan(m[2], &b)
+		if b-a+1 >= 100000 {
+			return true
+		}
+	}
+	return false
 }
 
 var literalDivZeroRe = regexp.MustCompile(`[/%]\s*\(?-?0\b`)
@@ -387,6 +411,11 @@ func (c02Engine) Run(sci interface{}, ctx *RunCtx) *Finding {
 				}
 				if p.label == plain.label {
 					kind += "/no-marks"
+				}
+				if !o.Failed() && oOff.Failed() && hasHugeLiteralRange(pr.Src) {
+					// the optimiser builds a literal range at compile time and the run is
+					// not charged for it; unoptimised, the same range exhausts the budget
+					kind = "optimized-succeeds-unoptimized-fails/constant-range-not-charged"
 				}
 				return &Finding{Class: "C02/" + kind, Detail: fmt.Sprintf("run %d: %s: %s\n        unoptimized: %s\n%s", k, p.label, outcomeText(o), outcomeText(oOff), head())}
 			}
